@@ -287,7 +287,25 @@ def run_case(case):
                [(ACTIONS[l[1]][1].__name__ if ACTIONS[l[1]][1] else "ProbeAction", ACTIONS[l[1]][0], shape_width(l[2]))
                 for _p, l in leaves], "leaves of the live collection (plain iteration) vs declaration order")
 
+    def accessors():
+        # every documented way of naming a field reaches the same field: key lookup and attribute access on maps,
+        # non-negative and negative indices and iteration on arrays
+        for (p, _l), act in zip(leaves, live):
+            for mode in ("neg", "attr", "iter"):
+                obj = reg.field
+                for k in p:
+                    if isinstance(obj, FieldActionArray):
+                        obj = obj[k - len(obj)] if mode == "neg" else list(obj)[k] if mode == "iter" else obj[k]
+                    elif mode == "attr" and isinstance(k, str) and k.isidentifier() and not k.startswith("_"):
+                        obj = getattr(obj, k)
+                    else:
+                        obj = obj[k]
+                mon.ok("accessors_agree", obj is act, f"field {list(p)} reached with {mode} accessors is another object "
+                                                      f"than the one plain iteration yields")
+
     mon.run(static)
+    if leaves and not isinstance(reg.field, csr.FieldAction):
+        mon.run(accessors)
     if mon.violations:
         return mon.result(summary=summary)
     readable, writable = "r" in access, "w" in access
